@@ -49,6 +49,29 @@ pub fn op_strategy() -> impl Strategy<Value = Op> {
     ]
 }
 
+/// Spot checks at large k (the u32 / u64 threshold arithmetic, k-proportional tables): few ops, each big.
+/// lg_k 16..=18 run simulations over the whole cardinality range (every window offset); lg_k 19..=21 are bounded
+/// by the number of coupons a case may cost (n <= 2^31: offsets up to ~9; thorough 2^35: up to ~13).
+pub fn big_strategy(thorough: bool) -> impl Strategy<Value = Case> {
+    let sim = |lo: u16, hi: u16| {
+        (lo..=hi, any::<u64>(), proptest::bool::weighted(0.2), proptest::bool::weighted(0.2), proptest::bool::weighted(0.2))
+            .prop_map(|(lg_n_x16, seed, warp, dups, swaps)| Op::Sim { lg_n_x16, seed, warp, dups, swaps })
+    };
+    let small_ops = || {
+        prop_oneof![
+            2 => (any::<u16>(), col_strategy()).prop_map(|(row, col)| Op::Coupon { row, col }),
+            1 => any::<u64>().prop_map(Op::Key),
+            1 => (1u16..=3000, any::<u64>()).prop_map(|(n, seed)| Op::Burst { n, seed }),
+        ]
+    };
+    let hi_big: u16 = if thorough { 16 * 35 } else { 16 * 31 };
+    let mid = (16u8..=18, seed_strategy(), proptest::collection::vec(prop_oneof![6 => sim(16 * 12, 16 * 60), 4 => small_ops()], 1..4))
+        .prop_map(|(lg_k, seed, ops)| Case { lg_k, seed, ops });
+    let big = (prop_oneof![1 => Just(19u8), 1 => Just(20u8), 3 => Just(21u8)], seed_strategy(), proptest::collection::vec(prop_oneof![6 => sim(16 * 15, hi_big), 4 => small_ops()], 1..4))
+        .prop_map(|(lg_k, seed, ops)| Case { lg_k, seed, ops });
+    prop_oneof![1 => mid, 1 => big]
+}
+
 pub fn case_strategy(min_lg: u8, max_lg: u8, max_ops: usize) -> impl Strategy<Value = Case> {
     (min_lg..=max_lg, seed_strategy(), proptest::collection::vec(op_strategy(), 1..max_ops))
         .prop_map(|(lg_k, seed, ops)| Case { lg_k, seed, ops })
@@ -255,13 +278,18 @@ pub fn run_case(c: &Case, info: &mut CaseInfo) -> Result<(), Fail> {
                 let f_post = flavor(lg_k, m.c);
                 let o_post = correct_offset(lg_k, m.c);
                 let transition = f_pre != f_post || o_pre != o_post;
+                if transition {
+                    flavors.insert(f_post);
+                    max_off = max_off.max(o_post);
+                }
                 let full = transition
                     || offered <= 64
                     || offered.is_power_of_two()
                     || j + 1 == cs.len()
                     || (lg_k <= 8 && offered % 16 == 0)
                     || (lg_k <= 11 && offered % 512 == 0);
-                if full || novel {
+                // at large k the per-coupon (cheap) comparison is sampled: every 32nd novel coupon
+                if full || (novel && (lg_k <= 14 || m.c % 32 == 0)) {
                     // cheap checks on every novel coupon, the matrix comparison on `full`
                     if full {
                         checks += 1;
@@ -295,6 +323,75 @@ pub fn run_case(c: &Case, info: &mut CaseInfo) -> Result<(), Fail> {
     Ok(())
 }
 
+/// Sparse-flavor spot check at lg_k 22..=26, where a k x 64 matrix model would need up to 512 MB: the model is the
+/// set of distinct coupons plus per-column counts (enough for num_coupons, flavor, offset, kxp, the table census).
+pub fn sparse_big_strategy() -> impl Strategy<Value = Case> {
+    let op = prop_oneof![
+        // (no arrival-time simulation here: it walks all k rows of every column)
+        3 => (any::<u16>(), col_strategy()).prop_map(|(row, col)| Op::Coupon { row, col }),
+        2 => any::<u64>().prop_map(Op::Key),
+        3 => (prop_oneof![1u16..=300, 300u16..=65535], any::<u64>()).prop_map(|(n, seed)| Op::Burst { n, seed }),
+    ];
+    (prop_oneof![1 => 22u8..=25, 2 => Just(26u8)], seed_strategy(), proptest::collection::vec(op, 1..6)).prop_map(|(lg_k, seed, ops)| Case { lg_k, seed, ops })
+}
+
+pub fn run_sparse_big(c: &Case, info: &mut CaseInfo) -> Result<(), Fail> {
+    let lg_k = c.lg_k;
+    let k = 1u64 << lg_k;
+    let mut sk = CpcSketch::with_seed(lg_k, c.seed);
+    let mut set = std::collections::HashSet::<u32>::new();
+    let mut col_cnt = [0u64; 64];
+    info.label(format!("lg_k={lg_k}"));
+    let check = |sk: &CpcSketch, set: &std::collections::HashSet<u32>, col_cnt: &[u64; 64], ctx: &str| -> Result<(), Fail> {
+        let cnt = set.len() as u64;
+        ensure!(sk.num_coupons() as u64 == cnt, "C05.num_coupons", "{ctx}: num_coupons {} but {cnt} distinct (row, col) pairs", sk.num_coupons());
+        ensure!(sk.is_empty() == (cnt == 0), "C05.is_empty", "{ctx}: is_empty {}", sk.is_empty());
+        let st = sk.verif_state();
+        ensure!(st.flavor == flavor(lg_k, cnt), "C05.flavor", "{ctx}: flavor {} but C = {cnt} at lg_k {lg_k} is flavor {}", st.flavor, flavor(lg_k, cnt));
+        ensure!(st.window_offset == 0 && !st.has_window, "C05.window_offset", "{ctx}: window offset {} / window allocated {} in a sparse sketch", st.window_offset, st.has_window);
+        ensure!(st.table_entries as u64 == cnt, "C05.surprising_values", "{ctx}: pair table holds {} entries, {cnt} coupons", st.table_entries);
+        let mut want = 0.0f64;
+        for col in (0..64usize).rev() {
+            want += (k - col_cnt[col]) as f64 * f64::from_bits((1022 - col as u64) << 52);
+        }
+        ensure!((st.kxp - want).abs() <= 1e-7 * want, "C05.kxp", "{ctx}: kxp {} but sum over unset bits is {want}", st.kxp);
+        ensure!(st.hip_est_accum.is_finite() && st.hip_est_accum >= cnt as f64 * (1.0 - 1e-12), "C05.hip_accum", "{ctx}: hip accumulator {} with {cnt} coupons", st.hip_est_accum);
+        Ok(())
+    };
+    check(&sk, &set, &col_cnt, "fresh sketch")?;
+    let limit = 3 * k / 32 - 8; // stay in the sparse flavor
+    for (i, op) in c.ops.iter().enumerate() {
+        let mut cs = vec![];
+        expand(op, lg_k, c.seed, &mut cs);
+        let mut burst = SplitMix(if let Op::Burst { seed, .. } = op { *seed } else { 0 });
+        for (j, &rc) in cs.iter().enumerate() {
+            if set.len() as u64 >= limit {
+                break;
+            }
+            match op {
+                Op::Key(key) => sk.update(*key),
+                // the j-th key of the burst (same expansion as `expand`)
+                Op::Burst { .. } => sk.update(burst.next()),
+                _ => sk.verif_row_col_update(rc),
+            }
+            if set.insert(rc) {
+                col_cnt[(rc & 63) as usize] += 1;
+            }
+            if j < 8 || (j + 1).is_power_of_two() || j + 1 == cs.len() {
+                check(&sk, &set, &col_cnt, &format!("after op #{i} {op:?} coupon #{j} = {rc:#x}"))?;
+            }
+        }
+        // the image of a sparse sketch of this k decodes to the same coupons
+        let bytes = sk.serialize();
+        let back = CpcSketch::deserialize_with_seed(&bytes, c.seed).map_err(|e| Fail { clause: "C05.big.roundtrip".into(), detail: format!("after op #{i}: own image rejected: {e}") })?;
+        check(&back, &set, &col_cnt, &format!("round-tripped after op #{i}"))?;
+        ensure!(back.estimate() == sk.estimate(), "C05.big.roundtrip", "after op #{i}: estimate {} -> {}", sk.estimate(), back.estimate());
+    }
+    info.sum("coupons", set.len() as f64);
+    info.nontrivial = set.len() >= 64;
+    Ok(())
+}
+
 pub fn def() -> PropDef {
     PropDef {
         id: "C05",
@@ -311,6 +408,7 @@ pub fn def() -> PropDef {
                 cases_quick: 20_000,
                 cases_thorough: 300_000,
                 max_shrink_iters: 1500,
+                limit_factor: 1,
                 strategy: || case_strategy(4, 10, 12),
                 check: run_case,
             }),
@@ -320,8 +418,29 @@ pub fn def() -> PropDef {
                 cases_quick: 1_200,
                 cases_thorough: 20_000,
                 max_shrink_iters: 600,
+                limit_factor: 1,
                 strategy: || case_strategy(11, 12, 8),
                 check: run_case,
+            }),
+            Box::new(PropSub {
+                name: "stream_vs_matrix_lg16_21",
+                rule: "spot checks at large k: lg_k 16..=18 with exact arrival-time simulations over the whole cardinality range (every flavor, window offsets up to 56) and lg_k 19..=21 (mostly 21) with simulations up to cardinality 2^31 (thorough 2^35; window offsets up to ~9 / ~13; bounded by coupons per case); 1..3 ops per case; same state comparison (full matrix at every flavor change / window move / power of two / first 64 coupons / end of op; the cheap per-coupon comparison sampled every 32nd novel coupon)",
+                cases_quick: 6,
+                cases_thorough: 200,
+                max_shrink_iters: 6,
+                limit_factor: 6,
+                strategy: || big_strategy(std::env::var("VERIF_TIER_HINT").map(|t| t == "thorough").unwrap_or(false)),
+                check: run_case,
+            }),
+            Box::new(PropSub {
+                name: "sparse_lg22_26",
+                rule: "spot checks at lg_k 22..=26 (mostly 26) in the sparse flavor (a full matrix model would need up to 512 MB): hashed keys, bursts of up to 65535 keys through update() and crafted coupons against the set of distinct coupons + per-column counts: num_coupons, flavor, no window, table census, kxp, hip accumulator, and the same after a serialize / deserialize round trip. non-trivial = at least 64 distinct coupons",
+                cases_quick: 2_000,
+                cases_thorough: 40_000,
+                max_shrink_iters: 100,
+                limit_factor: 2,
+                strategy: sparse_big_strategy,
+                check: run_sparse_big,
             }),
         ],
         post: None,
